@@ -2,6 +2,7 @@ package scion
 
 import (
 	"context"
+	"errors"
 	"os"
 	"sync/atomic"
 	"time"
@@ -41,6 +42,8 @@ func newFetcherMetrics() *fetcherMetrics {
 }
 
 var (
+	errNoDaemon = errors.New("no connection to SCION daemon")
+
 	fetcherMtrcs atomic.Pointer[fetcherMetrics]
 	useMockKeys  bool
 )
@@ -84,6 +87,8 @@ func (f *Fetcher) FetchHostASKey(ctx context.Context, meta drkey.HostASMeta) (
 				},
 				SrcHost: meta.SrcHost,
 			}
+		} else if f.dc == nil {
+			err = errNoDaemon
 		} else {
 			hak, err = FetchHostASKey(ctx, f.dc, meta)
 		}
@@ -120,6 +125,9 @@ func (f *Fetcher) FetchHostHostKey(ctx context.Context, meta drkey.HostHostMeta)
 			SrcHost: meta.SrcHost,
 			DstHost: meta.DstHost,
 		}, nil
+	}
+	if f.dc == nil {
+		return drkey.HostHostKey{}, errNoDaemon
 	}
 	return FetchHostHostKey(ctx, f.dc, meta)
 }
